@@ -1,0 +1,15 @@
+// Copyright 2017 The Go Authors. All rights reserved.
+// Use of this source code is governed by a BSD-style
+// license that can be found in the LICENSE file.
+
+package cpu
+
+// The Go runtime initializes its own internal/cpu before any package-level
+// variable is evaluated. This copy has no such caller, so every feature flag
+// stayed false and users (e.g. tls.hasAESGCMHardwareSupport) concluded that
+// the machine has no hardware support at all. Packages are initialized after
+// their imports, so detecting the features here makes them visible to the
+// package-level variables of every importer.
+func init() {
+	Initialize("")
+}
